@@ -39,7 +39,7 @@ Qed.
 
 Definition consumed (now : N) (x : mst) : mst :=
   {| active := false; inc := inc x + 1; bud := bud x; shut := None; nw := nw_bump now (nw x);
-     timers := []; ready := []; tpanics := tpanics x |}.
+     timers := []; ready := []; tpanics := tpanics x; catchf := catchf x |}.
 
 Lemma buf_process_mod c now i w :
   w_mod (fst (buf_process c now i w)) i = match shut (w_mod w i) with Some _ => consumed now (w_mod w i) | None => w_mod w i end.
